@@ -157,11 +157,18 @@ func (d *doublyConnectedEdgeList) unboundedFace() *faceRecord {
 	var unbounded *faceRecord
 	var minArea float64
 	for _, f := range d.faces {
+		// The area is accumulated relative to a vertex of the cycle rather
+		// than the origin. Otherwise, for geometries that are small compared
+		// to the magnitude of their coordinates, the terms would be so much
+		// bigger than the area that it is lost to rounding error.
+		ref := f.cycle.seq.GetXY(0)
 		var twiceArea float64
 		forEachEdgeInCycle(f.cycle, func(e *halfEdgeRecord) {
 			n := e.seq.Length()
 			for i := 0; i+1 < n; i++ {
-				twiceArea += e.seq.GetXY(i).Cross(e.seq.GetXY(i + 1))
+				u := e.seq.GetXY(i).Sub(ref)
+				v := e.seq.GetXY(i + 1).Sub(ref)
+				twiceArea += u.Cross(v)
 			}
 		})
 		if unbounded == nil || twiceArea < minArea {
